@@ -10,7 +10,7 @@ THEOREMS = ["Helios.Locks.lockset_sound", "Helios.Locks.lockorder_sound",
             "Helios.Facts.lock_analysis_clean", "Helios.Facts.accesses_guarded",
             "Helios.Facts.lock_classes_ranked", "Helios.Facts.lock_order_ranked",
             "Helios.Facts.no_callback_under_lock", "Helios.Facts.caller_releases_known",
-            "Helios.Facts.sync_literals_known"]
+            "Helios.Facts.sync_literals_known", "Helios.Facts.init_writers_called_from_init"]
 STRATEGIES = ["round_robin", "least_connections", "weighted_round_robin", "ip_hash", "ip_hash_consistent"]
 
 TRUSTED = ["Lean 4 kernel (decide +kernel evaluates the row tables in the kernel; no native_decide)",
@@ -20,7 +20,7 @@ TRUSTED = ["Lean 4 kernel (decide +kernel evaluates the row tables in the kernel
 DIAG = """import Helios.Model.LockPolicy
 import Helios.Generated.Locks
 open Helios.Locks Helios.Generated.Locks
-#eval IO.println s!"BAD-ACCESS {badAccesses accessChunks}"
+#eval IO.println s!"BAD-ACCESS {badAccesses initFuncs accessChunks}"
 #eval IO.println s!"BAD-EDGE {orderEdges.filter (fun e => !edgeOk e)}"
 #eval IO.println s!"UNRANKED {lockClasses.filter (fun c => (rankOf c).isNone)}"
 #eval IO.println s!"DYNCALL {dynamicCallsUnderLock}"
